@@ -63,6 +63,10 @@ func isJSONNumber(data string) bool {
 	if data[i] == '0' {
 		i++
 	} else {
+		if data[i] < '1' || data[i] > '9' {
+			// at least one digit in front of a fraction or an exponent
+			return false
+		}
 		for ; i < len(data); i++ {
 			if data[i] >= '0' && data[i] <= '9' {
 				continue
